@@ -377,6 +377,7 @@ func cmdCheck(args []string) int {
 		if k := isKnown(f); k != nil {
 			fmt.Printf("KNOWN-FINDING: property=%s %s :: %s — %s\n", id, shortCallee(f.fn), f.name, k.What)
 			knownHit = append(knownHit, shortCallee(f.fn)+" :: "+f.name)
+			total-- // a recorded finding is reported as such, not counted among the obligations of the proof
 			continue
 		}
 		violations++
